@@ -29,7 +29,7 @@ ASSUMPTIONS = [
     '"rendering in that zone" is relative to the zone database pytz ships',
     'refusal of ET missing only at the closing instant is stricter than the property and is not tested either way',
 ]
-SIZES = {'quick': dict(ts=36000, staged=16, bad=320), 'thorough': dict(ts=1200000, staged=300, bad=8000)}
+SIZES = {'quick': dict(ts=36000, staged=16, bad=320, batches=240), 'thorough': dict(ts=1200000, staged=300, bad=8000, batches=8000)}
 REQUIRED = {
     tier: {
         'timestamps-checked': 10000,
@@ -47,6 +47,8 @@ REQUIRED = {
         'refused:et-row-removed-extra-rows-elsewhere': 20,
         'refused:second-load': 20,
         'controls-accepted': 50,
+        'files-spanning-two-utc-offsets': 100,
+        'retries-on-the-same-connection': 10,
     }
     for tier in ('quick', 'thorough')
 }
@@ -184,6 +186,50 @@ def check_timestamps(ctx, rng, n):
     rec.hit('zones-covered', len(seen_zones))
 
 
+def check_batches(ctx, rng, n):
+    """Whole files in one call: rows whose first and last timestamps share an
+    offset while rows in between (or in any order) have another one"""
+    import pytz
+    import spowtd.load as load_mod
+
+    rec = ctx.rec
+    dst_zones = ['Europe/London', 'America/New_York', 'Europe/Berlin', 'Australia/Sydney', 'America/Sao_Paulo',
+                 'Pacific/Auckland', 'Asia/Tehran', 'America/Santiago', 'Africa/Casablanca', 'Europe/Dublin']
+    for i in range(n):
+        name = rng.choice(dst_zones)
+        tz = pytz.timezone(name)
+        year = rng.randint(1975, 2030)
+        rec.case()
+        # a year of rows at a coarse step, optionally shuffled
+        start = datetime.datetime(year, 1, rng.randint(1, 20), rng.randint(0, 23))
+        step_h = rng.choice([6, 24, 24 * 7, 1])
+        count = rng.randint(20, 120)
+        span = 365 * 24 // step_h
+        picks = sorted(rng.sample(range(span), min(count, span)))
+        naives = [start + datetime.timedelta(hours=k * step_h) for k in picks]
+        naives = [t for t in naives if len(candidate_epochs(t, tz)) == 1]
+        if len(naives) < 5:
+            continue
+        if rng.random() < 0.3:
+            rng.shuffle(naives)
+        rows = [[t.strftime(data.FMT), '0.5'] for t in naives]
+        try:
+            got = list(load_mod.generate_timestamped_rows(rows, tz))
+        except Exception as exc:  # pylint: disable=broad-except
+            desc = core.describe_exception(exc)
+            rec.violation('existing-local-times-refused:' + desc['type'], {'exception': desc, 'zone': name}, {'kind': 'batch', 'zone': name, 'texts': [r[0] for r in rows]}, 'batch')
+            continue
+        bad = [(r[0], g[0], forward(g[0], tz).strftime(data.FMT)) for r, g in zip(rows, got) if forward(g[0], tz).strftime(data.FMT) != r[0]]
+        offs = {forward(g[0], tz).utcoffset() for g in got}
+        if len(got) != len(rows) or bad:
+            rec.violation('stored-instant-does-not-render-as-the-original-text',
+                          {'zone': name, 'rows': len(rows), 'first_bad_text_epoch_rendering': bad[:3]}, {'kind': 'batch', 'zone': name, 'texts': [r[0] for r in rows]}, 'batch')
+            continue
+        rec.hit('files-converted-in-one-call')
+        if len(offs) > 1:
+            rec.hit('files-spanning-two-utc-offsets')
+
+
 def check_staged(ctx, rng, index):
     """A whole `spowtd load` in a zone with a non-trivial history: staging epochs"""
     import pytz
@@ -315,6 +361,47 @@ def check_refusals(ctx, rng, index, via):
         ('et-row-removed-extra-rows-elsewhere', case['rain'],
          [r for r in case['et'] if r[0] != et_victim] + [(rng.choice(inspan) + 7, 0.123), (rng.choice(inspan) + 11, 0.321)], case['z']),
     ]
+    if via == 'function' and index % 3 == 0:
+        # library use: a load is refused, the caller keeps the connection (no rollback) and
+        # loads another site into it: refused, or exactly that site -- never a merge
+        rec.case()
+        connection = sqlite3.connect(':memory:')
+        name0, rain0, et0, z0 = variants[index % len(variants)]
+        try:
+            load_mod.load_data(connection, io.StringIO(c10.text_of(rain0)), io.StringIO(c10.text_of(et0)), io.StringIO(c10.text_of(z0)), zone)
+            first_failed = False
+        except Exception:  # pylint: disable=broad-except
+            first_failed = True
+        if first_failed:
+            other = None
+            for _ in range(20):
+                cand = c10.gen(rng)
+                zt2 = sorted(t for t, _ in cand['z'])
+                if len([t for t, _ in cand['rain'] if zt2[0] <= t <= zt2[-1]]) >= 3:
+                    other = cand
+                    break
+            if other is not None:
+                # a later period, so that nothing collides with what the first attempt staged
+                shift = 400 * 86400
+                o_r = [(t + shift, v) for t, v in other['rain']]
+                o_e = [(t + shift, v) for t, v in other['et']]
+                o_z = [(t + shift, v) for t, v in other['z']]
+                try:
+                    load_mod.load_data(connection, io.StringIO(c10.text_of(o_r)), io.StringIO(c10.text_of(o_e)), io.StringIO(c10.text_of(o_z)), other['tz'])
+                    accepted = True
+                except Exception:  # pylint: disable=broad-except
+                    accepted = False
+                rec.hit('retries-on-the-same-connection')
+                if accepted:
+                    fresh = sqlite3.connect(':memory:')
+                    load_mod.load_data(fresh, io.StringIO(c10.text_of(o_r)), io.StringIO(c10.text_of(o_e)), io.StringIO(c10.text_of(o_z)), other['tz'])
+                    if data.dump(connection) != data.dump(fresh):
+                        rec.violation('load-after-a-refused-load-merged-leftover-rows', {'first_malformation': name0},
+                                      dict(case, malformation='retry-on-same-connection'), 'refusal')
+                    else:
+                        rec.hit('retries-accepted-without-merge')
+                else:
+                    rec.hit('retries-refused')
     for name, rain, et, z in variants:
         rec.case()
         if name == 'et-row-removed' and len(et) == len(case['et']):
@@ -341,6 +428,7 @@ def check_refusals(ctx, rng, index, via):
 def run(ctx):
     s = SIZES[ctx.tier]
     check_timestamps(ctx, ctx.rng('timestamps'), ctx.share(s['ts']))
+    check_batches(ctx, ctx.rng('batches'), ctx.share(s['batches']))
     rng = ctx.rng('staged')
     for i in range(ctx.share(s['staged'])):
         check_staged(ctx, rng, i)
